@@ -20,6 +20,7 @@ Proof.
   - intros l IHl H. apply andb_true_iff in H. destruct H as [Hp Hl]. split; [exact Hp|]. rewrite text_ok_args_eq. apply IHl. exact Hl.
   - intros f pid x IHx H. apply IHx. exact H.
   - intros pid it mn IHi IHm H. apply andb_true_iff in H. destruct H as [Hi Hm]. split; [apply IHi | apply IHm]; assumption.
+  - intros k i H. destruct k; try exact I. exact H.
   - intros x l IHx IHl H. cbn [forallb] in H. apply andb_true_iff in H. destruct H as [Hx Hl]. split; [apply IHx | apply IHl]; assumption.
 Qed.
 
@@ -128,11 +129,13 @@ Proof.
     + repeat match goal with |- context [let '(a, b) := ?X in _] => destruct X end; reflexivity.
     + repeat match goal with |- context [let '(a, b) := ?X in _] => destruct X end; destruct items; reflexivity.
     + destruct f; reflexivity.
+    + destruct k; reflexivity.
   - repeat match goal with |- context [let '(a, b) := ?X in _] => destruct X end; reflexivity.
   - repeat match goal with |- context [let '(a, b) := ?X in _] => destruct X end; reflexivity.
   - repeat match goal with |- context [let '(a, b) := ?X in _] => destruct X end; reflexivity.
   - repeat match goal with |- context [let '(a, b) := ?X in _] => destruct X end; destruct items; reflexivity.
   - destruct f; reflexivity.
+  - destruct k; reflexivity.
 Qed.
 
 Lemma ok2b_sound en : forall q, ok2b en q = true -> ok2 en q.
